@@ -99,7 +99,7 @@ Section Convert.
     | VBytes _, KBool => PUnmodelled                                    (* Conversion::Boolean *)
     | VBytes b, KBytes => POk (PBytes b)
     | VBytes b, KString => POk (PStr (utf8_lossy b))
-    | VBytes b, KEnum vals =>
+    | VBytes b, KEnum vals _ =>
         match enum_by_name vals (utf8_lossy b) with Some z => POk (PEnum z) | None => PErr end
     | VFloat f, KDouble => POk (PF64 f)
     | VFloat f, KFloat => POk (PF32 (f32_of_f64 f))
@@ -111,7 +111,7 @@ Section Convert.
     | VInt i, (KUint64 | KFixed64) => POk (PInt (wrap_u 64 i))                     (* i as u64 *)
     | VInt i, KDouble => POk (PF64 (f64_of_int i))
     | VInt i, KFloat => POk (PF32 (f32_of_int i))
-    | VInt i, KEnum _ => POk (PEnum (wrap_s 32 i))
+    | VInt i, KEnum _ _ => POk (PEnum (wrap_s 32 i))
     | VObj _, KMsg idx => pbind (conv_msg (get_msg P idx) x) (fun m => POk (PMsg m))
     | VRegex r, KString => POk (PStr r)
     | VRegex r, KBytes => POk (PBytes r)
@@ -197,7 +197,7 @@ Section ToValue.
     | PBytes s => POk (VBytes s)
     | PEnum z =>
         match k with
-        | KEnum vals => match enum_by_number vals z with Some n => POk (VBytes n) | None => PErr end
+        | KEnum vals _ => match enum_by_number vals z with Some n => POk (VBytes n) | None => PErr end
         | _ => PErr
         end
     | PMsg fs => match k with KMsg i => ptv_msg (get_msg P i) fs | _ => PErr end
@@ -293,12 +293,15 @@ Section Shape.
         && Bool.eqb (is_zero_float g) (is_zero_float f)
     | KString, VBytes b => valid_utf8 b
     | KBytes, VBytes _ => true
-    | KEnum vals, VBytes b =>
-        (* the exact name of a declared value (the one its number is printed as) *)
+    | KEnum vals dflt, VBytes b =>
+        (* the exact name of a declared value (the one its number is printed as); names are unique, so the value is the
+           default exactly when the name is the default's *)
         valid_utf8 b
         && match enum_by_name vals b with
            | Some z => in_range (- 2 ^ 31) (2 ^ 31 - 1) z
                        && match enum_by_number vals z with Some n => bytes_eqb n b | None => false end
+                       && Bool.eqb (Z.eqb z dflt)
+                                   (match enum_by_number vals dflt with Some n => bytes_eqb n b | None => false end)
            | None => false
            end
     | KMsg i, VObj _ => shaped_msg (get_msg P i) x
@@ -340,7 +343,7 @@ Section Shape.
     | KBool, VBool b => negb b
     | (KDouble | KFloat), VFloat f => is_zero_float f
     | (KString | KBytes), VBytes b => match b with [] => true | _ => false end
-    | KEnum vals, VBytes b => match enum_by_number vals (enum_default vals) with Some n => bytes_eqb n b | None => false end
+    | KEnum vals dflt, VBytes b => match enum_by_number vals dflt with Some n => bytes_eqb n b | None => false end
     | KMsg _, _ => false
     | _, VInt i => Z.eqb i 0
     | _, _ => false
